@@ -47,6 +47,15 @@ def main():
         L.append("| %s | %s | %s/%s | %s | %s | %s | notes/%s.md |" % (
             pid, props[pid], c.get("discharged", "-"), c.get("obligations", "-"), c.get("evaluations", "-"),
             c.get("distinct_nontrivial", "-"), ev.get("wall_s", "-"), pid))
+    tot_ob = tot_di = tot_ev = 0
+    for pid in sorted(props):
+        f = os.path.join(V, "evidence", pid + ".json")
+        if os.path.exists(f):
+            c = json.load(open(f)).get("coverage", {})
+            tot_ob += int(c.get("obligations", 0) or 0)
+            tot_di += int(c.get("discharged", 0) or 0)
+            tot_ev += int(c.get("evaluations", 0) or 0)
+    L += ["", "**Totals:** %d of %d property theorems discharged; %d correspondence evaluations in the last quick run of all 20 checks." % (tot_di, tot_ob, tot_ev)]
     fs = findings()
     L += ["", "### 11.2 Genuine defects exhibited by the checks", "",
           "Each `fixed` entry is one unguarded `fix:` commit in /repo (the minimised witness stays in `corpus/<ID>/`, so a "
